@@ -380,3 +380,114 @@ impl RandomProp for SizeRandom {
         env.n(13 * 3000, 13 * 25_000)
     }
 }
+
+/// Several shapes of different sizes in ONE file, through every writing route: the content-length word of every
+/// record is that shape's own announced size (+4), and the record body is that shape's own serialisation.
+pub struct SizeFile;
+impl Prop for SizeFile {
+    type Case = crate::common::FileCase;
+    fn name() -> &'static str {
+        "sizefile"
+    }
+    fn rule() -> &'static str {
+        "proptest: files of 1-12 shapes of one type with deliberately unequal sizes, written through write_shape (+ finalize calls), \
+         the consuming write_shapes, half-and-half, Writer::write_shape_and_record and Writer::write_shapes_and_records; the .shp is \
+         walked by its own content-length words: record i's word == (size_in_bytes(shape i) + 4) / 2, its body after the type code is \
+         byte-identical to write_to(shape i), and the walk ends exactly at the end of the file. Non-trivial: a shape that is shorter \
+         than an earlier shape of the same file"
+    }
+    fn check(c: &crate::common::FileCase, ctx: &mut Ctx) -> Result<(), Fail> {
+        struct F<'a>(&'a crate::common::FileCase, &'a mut Ctx);
+        impl KindFn for F<'_> {
+            type Out = Result<(), Fail>;
+            fn call<K: Kind>(self) -> Self::Out
+            where
+                shapefile::Error: From<<K as TryFrom<Shape>>::Error>,
+            {
+                let (c, ctx) = (self.0, self.1);
+                let shapes: Vec<K> = build_all(&c.geoms, c.ctor);
+                let sizes: Vec<usize> = shapes.iter().map(|s| s.size_in_bytes()).collect();
+                if sizes.iter().enumerate().any(|(i, s)| sizes[..i].iter().any(|e| e > s)) {
+                    ctx.nontrivial();
+                }
+                let mut bodies: Vec<Vec<u8>> = Vec::new();
+                for s in &shapes {
+                    let mut b = Vec::new();
+                    s.write_to(&mut b).map_err(|e| Fail::new("write-error", err_str(&e)))?;
+                    bodies.push(b);
+                }
+                let mut files: Vec<(String, Vec<u8>)> = Vec::new();
+                let (shp, _) = write_bytes_hist(&shapes, true, c.fin, c.mid_fins, c.rejects).map_err(|e| Fail::new("write-error", e))?;
+                files.push((format!("ShapeWriter route {:?}", c.fin), shp));
+                for bulk in [false, true] {
+                    use shapefile::dbase;
+                    use std::convert::TryInto;
+                    let (shp, shx, dbf) = (vlib::io::Dest::new(), vlib::io::Dest::new(), vlib::io::Dest::new());
+                    {
+                        let sw = shapefile::ShapeWriter::with_shx(shp.clone(), shx.clone());
+                        let tw = dbase::TableWriterBuilder::new().add_numeric_field("idx".try_into().unwrap(), 10, 0).build_with_dest(dbf.clone());
+                        let mut w = shapefile::Writer::new(sw, tw);
+                        let rows: Vec<dbase::Record> = (0..shapes.len())
+                            .map(|i| {
+                                let mut r = dbase::Record::default();
+                                r.insert("idx".to_string(), dbase::FieldValue::Numeric(Some(i as f64)));
+                                r
+                            })
+                            .collect();
+                        if bulk {
+                            w.write_shapes_and_records(shapes.iter().zip(rows.iter())).map_err(|e| Fail::new("write-error", err_str(&e)))?;
+                        } else {
+                            for (s, r) in shapes.iter().zip(rows.iter()) {
+                                w.write_shape_and_record(s, r).map_err(|e| Fail::new("write-error", err_str(&e)))?;
+                            }
+                        }
+                    }
+                    files.push((if bulk { "Writer::write_shapes_and_records".to_string() } else { "Writer::write_shape_and_record".to_string() }, shp.bytes()));
+                }
+                for (route, shp) in files {
+                    if shapes.is_empty() {
+                        continue;
+                    }
+                    let mut p = 100usize;
+                    for (i, (size, body)) in sizes.iter().zip(&bodies).enumerate() {
+                        ensure!(p + 12 <= shp.len(), "file-length", "{}: the file ends at {} before record {} (at {})", route, shp.len(), i, p);
+                        let word = i32::from_be_bytes(shp[p + 4..p + 8].try_into().unwrap());
+                        ensure!(
+                            (size + 4) % 2 == 0 && word >= 0 && word as usize == (size + 4) / 2,
+                            "content-length",
+                            "{}: record {} of {} stores {} words, its shape announces {} bytes (+4 type code); sizes of the file's shapes: {:?}",
+                            route,
+                            i,
+                            sizes.len(),
+                            word,
+                            size,
+                            sizes
+                        );
+                        let end = p + 12 + size;
+                        ensure!(end <= shp.len(), "file-length", "{}: record {} runs to {} but the file has {} bytes", route, i, end, shp.len());
+                        ensure!(shp[p + 12..end] == body[..], "body-differs", "{}: the body of record {} is not what write_to emits for shape {}", route, i, i);
+                        p = end;
+                    }
+                    ensure!(p == shp.len(), "file-length", "{}: records end at {}, the file has {} bytes", route, p, shp.len());
+                }
+                Ok(())
+            }
+        }
+        dispatch(c.ty, F(c, ctx))
+    }
+}
+impl RandomProp for SizeFile {
+    fn strategy(_env: &Env) -> BoxedStrategy<crate::common::FileCase> {
+        crate::common::file_case(crate::common::FileGen {
+            min_n: 1,
+            max_n: 12,
+            nan_zm: true,
+            max_parts: 5,
+            max_pts: 12,
+            disk_every: 0,
+        })
+    }
+    fn cases(env: &Env) -> u64 {
+        env.n(13 * 3000, 13 * 100_000)
+    }
+}
